@@ -2,6 +2,7 @@ import struct
 import numpy as np
 
 from .read import SgzReader
+from .version import SeismicZfpVersion
 from .utils import pad, int_to_bytes, np_float_to_bytes, np_float_to_bytes_signed, coord_to_index
 from .sgzconstants import DISK_BLOCK_BYTES, SEGY_TEXT_HEADER_BYTES
 
@@ -81,6 +82,7 @@ class SgzCropper(SgzReader):
         header[24:28] = np_float_to_bytes(np.int32(self.ilines[iline_index_range[0]]))
         header[56:60] = int_to_bytes(compressed_data_length_diskblocks)
         header[60:64] = int_to_bytes((len_xlines * len_ilines * 32) // 8)
+        header[68:72] = int_to_bytes(len_xlines * len_ilines)
 
         # We need to inform the SEG-Y binary header what has happened to the trace length, otherwise
         # segyio will get all confused if attempting to read the cropped SGZ converted back to SEG-Y
@@ -174,8 +176,17 @@ class SgzCropper(SgzReader):
             new_sgz_file.write(compressed_bytes)
 
             self.read_variant_headers()
+            written_offsets = set()
             for k in self.stored_header_keys:
+                # Header fields which duplicate one another share a stored array, write each array once
+                if self.segy_traceheader_template[k] in written_offsets:
+                    continue
+                written_offsets.add(self.segy_traceheader_template[k])
                 header_array = self.variant_headers[k].reshape((self.n_ilines, self.n_xlines)).astype(np.int32)
                 cropped_header_array = header_array[iline_index_range[0]:iline_index_range[1],
                                                     xline_index_range[0]:xline_index_range[1]]
-                new_sgz_file.write(cropped_header_array.flatten().tobytes())
+                header_bytes = cropped_header_array.flatten().tobytes()
+                if self.file_version > SeismicZfpVersion("0.2.1"):
+                    # Pad to 512-bytes for page blobs, as in the file being cropped
+                    header_bytes += bytes(-len(header_bytes) % 512)
+                new_sgz_file.write(header_bytes)
